@@ -165,7 +165,7 @@ msgs.append(msg("Wrap", [
 ]))
 
 case = {
-    "request": {"deps": [], "file": {"name": "x.proto", "package": "tpkg",
+    "request": {"deps": [], "file": {"name": "x.proto", "package": "tpkg", "packageComment": " This package holds every shape\n",
                                      "enums": [{"name": "EnumOne", "values": [0, 1, 2, -1, 2147483647]}, {"name": "EnumTwo", "values": [0, 5]}],
                                      "messages": msgs}},
     "yaml": {
